@@ -72,23 +72,56 @@ type wproc struct {
 	finished bool
 }
 
+// procCPU returns the CPU seconds consumed by the process and by its
+// descendants (a worker may delegate its work to child processes: the Go
+// fuzzer runs as `go test` with worker processes of its own).
 func procCPU(pid int) float64 {
-	b, err := os.ReadFile(fmt.Sprintf("/proc/%d/stat", pid))
-	if err != nil {
-		return 0
+	type st struct {
+		ppid int
+		cpu  float64
 	}
-	s := string(b)
-	i := strings.LastIndex(s, ")")
-	if i < 0 {
-		return 0
+	procs := map[int]st{}
+	ents, _ := os.ReadDir("/proc")
+	for _, e := range ents {
+		id, err := strconv.Atoi(e.Name())
+		if err != nil {
+			continue
+		}
+		b, err := os.ReadFile(fmt.Sprintf("/proc/%d/stat", id))
+		if err != nil {
+			continue
+		}
+		s := string(b)
+		i := strings.LastIndex(s, ")")
+		if i < 0 {
+			continue
+		}
+		f := strings.Fields(s[i+1:])
+		if len(f) < 15 {
+			continue
+		}
+		ppid, _ := strconv.Atoi(f[1])
+		ut, _ := strconv.ParseFloat(f[11], 64)
+		stime, _ := strconv.ParseFloat(f[12], 64)
+		cut, _ := strconv.ParseFloat(f[13], 64) // reaped children
+		cst, _ := strconv.ParseFloat(f[14], 64)
+		procs[id] = st{ppid, (ut + stime + cut + cst) / 100.0}
 	}
-	f := strings.Fields(s[i+1:])
-	if len(f) < 13 {
-		return 0
+	total := 0.0
+	for id, p := range procs {
+		for a, hops := id, 0; hops < 32; hops++ {
+			if a == pid {
+				total += p.cpu
+				break
+			}
+			q, ok := procs[a]
+			if !ok || q.ppid == a || q.ppid <= 1 {
+				break
+			}
+			a = q.ppid
+		}
 	}
-	ut, _ := strconv.ParseFloat(f[11], 64)
-	st, _ := strconv.ParseFloat(f[12], 64)
-	return (ut + st) / 100.0
+	return total
 }
 
 type pool struct {
